@@ -148,6 +148,7 @@ type c20Work struct {
 	TwoMounts bool
 	Watcher   bool
 	Stale     bool
+	SameDir   bool // destination directory == the control file's own directory
 }
 
 type c20Result struct {
@@ -175,8 +176,12 @@ func under(p, dir string) bool { return p == dir || strings.HasPrefix(p, dir+"/"
 // checks every invariant.  planIdx<=0 means fault-free.
 func c20Exec(r *rt.Run, w *c20Work, planIdx int, fault simos.Fault, tag string) c20Result {
 	fs := simos.New(r)
+	dst := c20Dst
+	if w.SameDir {
+		dst = w.U.SrcDir // the upload is copied / moved into the directory it is already in
+	}
 	if w.TwoMounts {
-		fs.Mount(c20Dst, 2)
+		fs.Mount(dst, 2)
 	}
 	u := w.U
 	fs.MkdirAllQuiet(u.SrcDir)
@@ -189,16 +194,16 @@ func c20Exec(r *rt.Run, w *c20Work, planIdx int, fault simos.Fault, tag string) 
 	}
 	switch w.DstState {
 	case "dir":
-		fs.MkdirAllQuiet(c20Dst)
+		fs.MkdirAllQuiet(dst)
 		if w.Stale {
 			for i, f := range u.Files {
 				if i%2 == 0 && f.Base != u.CtlName {
-					fs.PutQuiet(path.Join(c20Dst, f.Base), []byte("stale content of an earlier upload"))
+					fs.PutQuiet(path.Join(dst, f.Base), []byte("stale content of an earlier upload"))
 				}
 			}
 		}
 	case "file":
-		fs.PutQuiet(c20Dst, []byte("i am a regular file"))
+		fs.PutQuiet(dst, []byte("i am a regular file"))
 	}
 	fs.PutQuiet("/queue/bystander.txt", []byte("bystander"))
 	if w.U2 != nil {
@@ -216,7 +221,7 @@ func c20Exec(r *rt.Run, w *c20Work, planIdx int, fault simos.Fault, tag string) 
 	defer simos.Install(nil)
 
 	key := w.Op + "/" + u.Kind
-	ctlDst := path.Join(c20Dst, u.CtlName)
+	ctlDst := path.Join(dst, u.CtlName)
 	ctlSrc := path.Join(u.SrcDir, u.CtlName)
 
 	// invariants that must hold at every instant of the file-system history
@@ -240,7 +245,7 @@ func c20Exec(r *rt.Run, w *c20Work, planIdx int, fault simos.Fault, tag string) 
 				if f.Listed == u.CtlName {
 					continue
 				}
-				d, _, ok := fs.Peek(path.Join(c20Dst, f.Base))
+				d, _, ok := fs.Peek(path.Join(dst, f.Base))
 				if !ok || !bytes.Equal(d, f.Content) {
 					state := "absent"
 					if ok {
@@ -273,9 +278,9 @@ func c20Exec(r *rt.Run, w *c20Work, planIdx int, fault simos.Fault, tag string) 
 			}
 			switch w.Op {
 			case "Copy":
-				err = h.Copy(c20Dst)
+				err = h.Copy(dst)
 			case "Move":
-				err = h.Move(c20Dst)
+				err = h.Move(dst)
 			case "Remove":
 				err = h.Remove()
 			}
@@ -289,9 +294,9 @@ func c20Exec(r *rt.Run, w *c20Work, planIdx int, fault simos.Fault, tag string) 
 			}
 			switch w.Op {
 			case "Copy":
-				err = h.Copy(c20Dst)
+				err = h.Copy(dst)
 			case "Move":
-				err = h.Move(c20Dst)
+				err = h.Move(dst)
 			case "Remove":
 				err = h.Remove()
 			}
@@ -307,13 +312,13 @@ func c20Exec(r *rt.Run, w *c20Work, planIdx int, fault simos.Fault, tag string) 
 			if w.U2.Kind == "dsc" {
 				h, e := control.ParseDscFile(p)
 				if e == nil {
-					e = h.Copy(c20Dst)
+					e = h.Copy(dst)
 				}
 				u2err = e
 			} else {
 				h, e := control.ParseChangesFile(p)
 				if e == nil {
-					e = h.Copy(c20Dst)
+					e = h.Copy(dst)
 				}
 				u2err = e
 			}
@@ -336,7 +341,7 @@ func c20Exec(r *rt.Run, w *c20Work, planIdx int, fault simos.Fault, tag string) 
 					if f.Listed == u.CtlName {
 						continue
 					}
-					d, err := simos.ReadFile(path.Join(c20Dst, f.Base))
+					d, err := simos.ReadFile(path.Join(dst, f.Base))
 					if err != nil || !bytes.Equal(d, f.Content) {
 						k := key
 						if hasSelf(u) {
@@ -377,7 +382,7 @@ func c20Exec(r *rt.Run, w *c20Work, planIdx int, fault simos.Fault, tag string) 
 			if p == "" || p == "/" {
 				continue
 			}
-			if !(p == u.SrcDir || path.Dir(p) == u.SrcDir) && !(p == c20Dst || path.Dir(p) == c20Dst) {
+			if !(p == u.SrcDir || path.Dir(p) == u.SrcDir) && !(p == dst || path.Dir(p) == dst) {
 				what := "touched"
 				switch op.Op {
 				case "open", "read":
@@ -390,7 +395,7 @@ func c20Exec(r *rt.Run, w *c20Work, planIdx int, fault simos.Fault, tag string) 
 					what = "moved"
 				}
 				if op.Err == "" || op.Op == "open" || op.Op == "create" {
-					r.Violate("C20/escapes-directories", w.Op+"/"+u.Kind+"/"+what, "[%s] call #%d: %s %s %s (%s) lies outside %s and %s; listed names: %v", tag, op.Idx, op.Op, op.Path, op.Path2, what, u.SrcDir, c20Dst, listedNames(u))
+					r.Violate("C20/escapes-directories", w.Op+"/"+u.Kind+"/"+what, "[%s] call #%d: %s %s %s (%s) lies outside %s and %s; listed names: %v", tag, op.Idx, op.Op, op.Path, op.Path2, what, u.SrcDir, dst, listedNames(u))
 					break
 				}
 			}
@@ -398,7 +403,7 @@ func c20Exec(r *rt.Run, w *c20Work, planIdx int, fault simos.Fault, tag string) 
 	}
 	// bystanders outside both directories are untouched
 	for p, c := range initial {
-		if under(p, u.SrcDir) || under(p, c20Dst) {
+		if under(p, u.SrcDir) || under(p, dst) {
 			continue
 		}
 		if fc, ok := final[p]; !ok || fc != c {
@@ -406,7 +411,7 @@ func c20Exec(r *rt.Run, w *c20Work, planIdx int, fault simos.Fault, tag string) 
 		}
 	}
 	for p := range final {
-		if _, ok := initial[p]; !ok && !under(p, u.SrcDir) && !under(p, c20Dst) {
+		if _, ok := initial[p]; !ok && !under(p, u.SrcDir) && !under(p, dst) {
 			r.Violate("C20/outside-file-changed", w.Op+"/"+u.Kind+"/created", "[%s] %s was created outside source and destination directory", tag, p)
 		}
 	}
@@ -414,7 +419,7 @@ func c20Exec(r *rt.Run, w *c20Work, planIdx int, fault simos.Fault, tag string) 
 	if w.U2 != nil {
 		if u2returned && u2err == nil && w.DstState == "dir" {
 			for _, f := range w.U2.Files {
-				if d, _, ok := fs.Peek(path.Join(c20Dst, f.Base)); !ok || !bytes.Equal(d, f.Content) {
+				if d, _, ok := fs.Peek(path.Join(dst, f.Base)); !ok || !bytes.Equal(d, f.Content) {
 					r.Violate("C20/second-upload-damaged", key, "[%s] the unrelated upload returned nil but its file %s is missing or different in the destination", tag, f.Base)
 				}
 			}
@@ -443,7 +448,7 @@ func c20Exec(r *rt.Run, w *c20Work, planIdx int, fault simos.Fault, tag string) 
 		r.Violate("C20/harness", key, "[%s] uploader neither returned nor crashed", tag)
 	case res.err != nil:
 		if w.Op != "Remove" {
-			if ctlInDst && !hasSelf(u) {
+			if ctlInDst && !hasSelf(u) && !w.SameDir {
 				r.Violate("C20/control-file-in-destination-after-failure", key+"/"+faultClass(fault, planIdx), "[%s] %s returned %q but the control file %s is in the destination (%d bytes, original %d)", tag, w.Op, res.err, u.CtlName, len(final[ctlDst]), len(u.Ctl))
 			}
 		}
@@ -467,25 +472,25 @@ func c20Exec(r *rt.Run, w *c20Work, planIdx int, fault simos.Fault, tag string) 
 			}
 			break
 		}
-		if want := c20Dst + "/" + u.CtlName; path.Clean(handleFilename) != want {
+		if want := dst + "/" + u.CtlName; path.Clean(handleFilename) != want {
 			r.Violate("C20/success-postcondition", key+"/handle-filename", "[%s] %s returned nil but handle.Filename is %q, want %q", tag, w.Op, handleFilename, want)
 		}
 		if d, _, ok := fs.Peek(ctlDst); !ok || !bytes.Equal(d, u.Ctl) {
 			r.Violate("C20/success-postcondition", key+"/control-content", "[%s] %s returned nil but the control file in the destination is missing or differs (%d vs %d bytes)", tag, w.Op, len(d), len(u.Ctl))
 		}
 		for _, f := range u.Files {
-			if d, _, ok := fs.Peek(path.Join(c20Dst, f.Base)); !ok || !bytes.Equal(d, f.Content) {
+			if d, _, ok := fs.Peek(path.Join(dst, f.Base)); !ok || !bytes.Equal(d, f.Content) {
 				r.Violate("C20/success-postcondition", key+"/file-content", "[%s] %s returned nil (fault %s) but %s in the destination is missing or differs (%d vs %d bytes)", tag, w.Op, faultClass(fault, planIdx), f.Base, len(d), len(f.Content))
 			}
 			_, _, atSrc := fs.Peek(f.SrcPath)
-			if w.Op == "Move" && atSrc {
+			if w.Op == "Move" && atSrc && !w.SameDir {
 				r.Violate("C20/success-postcondition", key+"/source-still-there", "[%s] Move returned nil but %s is still at its source", tag, f.SrcPath)
 			}
 			if w.Op == "Copy" && !atSrc {
 				r.Violate("C20/success-postcondition", key+"/source-gone", "[%s] Copy returned nil but %s vanished from the source", tag, f.SrcPath)
 			}
 		}
-		if w.Op == "Move" && ctlSrcOK {
+		if w.Op == "Move" && ctlSrcOK && !w.SameDir {
 			r.Violate("C20/success-postcondition", key+"/source-still-there", "[%s] Move returned nil but the control file is still at its source", tag)
 		}
 		if w.Op == "Copy" {
@@ -535,6 +540,11 @@ func runC20(r *rt.Run, tier string) {
 	w.TwoMounts = t.Bool(1, 8, "c20.mounts")
 	w.Watcher = t.Bool(1, 2, "c20.watcher")
 	w.Stale = t.Bool(1, 6, "c20.stale")
+	if w.DstState == "dir" && w.Op != "Remove" && !anyOdd(w.U) && t.Bool(1, 10, "c20.samedir") {
+		w.SameDir = true
+		w.TwoMounts, w.Stale = false, false
+		r.Probe("destination-is-the-source-directory")
+	}
 	if t.Bool(1, 4, "c20.u2") {
 		w.U2 = genUpload(t, r, "/queue/incoming/src2", "zz9", false)
 	}
@@ -562,7 +572,11 @@ func runC20(r *rt.Run, tier string) {
 
 	// 2. the same workload with one fault at call index idx
 	nk := len(c20FaultKinds)
-	ctlDst := path.Join(c20Dst, w.U.CtlName)
+	dstDir := c20Dst
+	if w.SameDir {
+		dstDir = w.U.SrcDir
+	}
+	ctlDst := path.Join(dstDir, w.U.CtlName)
 	fp := faultIndex(r, L*nk, func() int {
 		// bias: calls on the control file in the destination, on the first and the last referenced file
 		var ctlOps, firstOps, lastOps []int
@@ -651,5 +665,5 @@ func init() {
 		},
 		Assumptions: []string{"crash = death of the calling process (completed calls persist); power-loss semantics are not modelled because the library never calls fsync and the property does not promise power-fail durability", "after a crash only the every-instant invariants are demanded; the atomic-failure clause is demanded when an error is returned", "a listed name must resolve to a file directly in the control file's own directory: a subdirectory of it is outside (strict reading of the statement)"},
 	})
-	propProbes["C20"] = []string{"traversal-name", "absolute-name", "name-with-subdirectory", "control-file-lists-itself", "file-needs-several-read-write-calls", "uploader-crashed", "EXDEV-on-rename", "fault-on-control-file-create", "fault-on-control-file-write", "fault-on-control-file-close", "fault-on-control-file-rename", "fault-on-first-file", "fault-on-last-file", "crash-between-last-file-and-control-file", "watcher-ran-between-create-and-first-write-of-control-file"}
+	propProbes["C20"] = []string{"destination-is-the-source-directory", "traversal-name", "absolute-name", "name-with-subdirectory", "control-file-lists-itself", "file-needs-several-read-write-calls", "uploader-crashed", "EXDEV-on-rename", "fault-on-control-file-create", "fault-on-control-file-write", "fault-on-control-file-close", "fault-on-control-file-rename", "fault-on-first-file", "fault-on-last-file", "crash-between-last-file-and-control-file", "watcher-ran-between-create-and-first-write-of-control-file"}
 }
